@@ -1677,6 +1677,29 @@ impl<'a> G<'a> {
                 }
                 out.push(E::Print(vec![E::Dot(bx(id(&o)), "v".into())]));
             }
+            4 if self.s.chance(30) => {
+                // a generator that ends early with `return <value>`: the value ends the generator and is
+                // not one of its outputs
+                self.feat("generator-return-value");
+                let g = self.fresh("g");
+                let (xs, lim, x) = (self.fresh("a"), self.fresh("a"), self.fresh("x"));
+                let body = vec![E::For(
+                    vec![Pat::Id(x.clone(), None)],
+                    bx(id(&xs)),
+                    vec![E::If(vec![(E::Bin(Op::Ge, bx(id(&x)), bx(id(&lim))), vec![E::Return(Some(bx(id(&x))))])], None), E::Yield(bx(id(&x)))],
+                )];
+                out.push(E::Assign(
+                    bx(id(&g)),
+                    None,
+                    bx(E::Fn(vec![FnArg { pat: Pat::Id(xs.clone(), None), default: None, variadic: false }, FnArg { pat: Pat::Id(lim.clone(), None), default: None, variadic: false }], None, body)),
+                ));
+                let items: Vec<E> = (0..2 + self.s.below(4)).map(|_| E::Int(self.s.below(9) as i64)).collect();
+                let limit = E::Int(self.s.below(9) as i64);
+                let call = E::Call(bx(id(&g)), vec![(E::Tuple(items), false), (limit, false)]);
+                out.push(E::Print(vec![E::Call(bx(E::Dot(bx(call.clone()), "to_tuple".into())), vec![])]));
+                let v = self.fresh("x");
+                out.push(E::For(vec![Pat::Id(v.clone(), None)], bx(call), vec![E::Print(vec![E::Str(vec![SPart::Lit("got ".into()), SPart::Expr(id(&v), None)])])]));
+            }
             4 => {
                 // generator definition and consumption
                 let (def, sig) = self.fn_def(true);
@@ -1777,6 +1800,44 @@ impl<'a> G<'a> {
                     let r2 = self.fresh("p");
                     out.push(E::Assign(bx(id(&r2)), None, bx(piped)));
                     out.push(E::Print(vec![id(&r2)]));
+                }
+            }
+            6 if self.s.chance(45) => {
+                // several packed arguments in one call, each expanding to 0..3 values, mixed with plain ones
+                self.feat("multi-packed-args");
+                let vf = self.fresh("f");
+                let a = self.fresh("a");
+                out.push(E::Assign(bx(id(&vf)), None, bx(E::Fn(vec![FnArg { pat: Pat::Id(a.clone(), None), default: None, variadic: true }], None, vec![id(&a)]))));
+                let n_packed = 2 + self.s.below(3) as usize;
+                let mut args = vec![];
+                let mut total = 0i64;
+                for k in 0..n_packed {
+                    let len = self.s.below(4) as usize;
+                    let items: Vec<E> = (0..len).map(|j| E::Int((k * 10 + j) as i64)).collect();
+                    total += len as i64;
+                    let seq = match self.s.below(3) {
+                        0 => E::List(items),
+                        1 => E::Tuple(items),
+                        _ => {
+                            let name = self.fresh("pk");
+                            out.push(E::Assign(bx(id(&name)), None, bx(E::Tuple(items))));
+                            id(&name)
+                        }
+                    };
+                    args.push((seq, true));
+                    if self.s.chance(30) {
+                        args.push((E::Int(100 + k as i64), false));
+                        total += 1;
+                    }
+                }
+                out.push(E::Print(vec![E::Call(bx(id(&vf)), args.clone())]));
+                // the same arguments bound to fixed parameters (arity must come out right)
+                if total >= 1 && total <= 6 {
+                    let ff = self.fresh("f");
+                    let ps: Vec<String> = (0..total).map(|_| self.fresh("a")).collect();
+                    let sum = ps.iter().skip(1).fold(id(&ps[0]), |acc, p| E::Bin(Op::Add, bx(E::Bin(Op::Mul, bx(acc), bx(E::Int(2)))), bx(id(p))));
+                    out.push(E::Assign(bx(id(&ff)), None, bx(E::Fn(ps.iter().map(|p| FnArg { pat: Pat::Id(p.clone(), None), default: None, variadic: false }).collect(), None, vec![sum]))));
+                    out.push(E::Print(vec![E::Call(bx(id(&ff)), args)]));
                 }
             }
             6 => {
